@@ -105,12 +105,16 @@ Queries == { <<>>,
 \* ---- cases -------------------------------------------------------------------------------
 \* pe: an htpasswd file is configured together with prefer-email-to-user (htpasswd users then carry their NAME in the e-mail field and
 \* stay exempt; identities from the provider do not become exempt by looking like one)
-Mk2(k, e, gs, rs, f, al, q, st, pe) == [kind |-> k, email |-> e, groups |-> gs, rules |-> rs, file |-> f, allowed |-> al, query |-> q, store |-> st, pe |-> pe]
+\* big: the session is so large that the cookie store splits it over several cookies (none of which carries the base name)
+Mk3(k, e, gs, rs, f, al, q, st, pe, big) == [kind |-> k, email |-> e, groups |-> gs, rules |-> rs, file |-> f, allowed |-> al, query |-> q, store |-> st, pe |-> pe, big |-> big]
+Mk2(k, e, gs, rs, f, al, q, st, pe) == Mk3(k, e, gs, rs, f, al, q, st, pe, FALSE)
 Mk(k, e, gs, rs, f, al, q, st) == Mk2(k, e, gs, rs, f, al, q, st, FALSE)
 Kinds == {"login", "request", "authonly", "htpasswd"}
 ValidCfg(c) == c.rules # {} \/ c.file.on \/ c.kind = "htpasswd"
 InScope(c) ==
     /\ ValidCfg(c)
+    /\ (c.big => c.kind \in {"request", "authonly"} /\ c.file = NoFile /\ c.query = <<>> /\ c.allowed \in {{}, {"g1"}} /\ ~c.pe
+                  /\ c.rules \in {{<<"star">>}, {EX}})
     /\ (c.pe => c.kind \in {"request", "authonly"} /\ c.rules = {EX} /\ c.file = NoFile /\ c.allowed = {} /\ c.store = "cookie" /\ c.query = <<>>
                  /\ c.groups = <<"g1">>)
     /\ (c.kind \notin {"authonly", "htpasswd"} => c.query = <<>>)
@@ -144,7 +148,7 @@ FileChangeRec(v1, v2, emptyStyle, style) ==
 
 VARIABLE c
 Init == \E k \in Kinds, e \in Emails, gs \in GroupLists, rs \in DomainRuleSets, f \in Files, al \in AllowedGroups, q \in Queries,
-           st \in {"cookie", "redis"}, pe \in BOOLEAN : c = Mk2(k, e, gs, rs, f, al, q, st, pe) /\ InScope(c)
+           st \in {"cookie", "redis"}, pe \in BOOLEAN, big \in BOOLEAN : c = Mk3(k, e, gs, rs, f, al, q, st, pe, big) /\ InScope(c)
 Next == UNCHANGED c
 
 Allowed(d) == CASE d.kind = "login"    -> Req_LoginAllowed(d.email, d.groups, d.rules, d.file, d.allowed)
